@@ -96,7 +96,10 @@ Fixpoint madd_fields (s : mstate) (id : Z) (fields : list (str * mvalue)) : msta
       end
   end.
 
+(** values are validated before anything is modified (fix: commit "a failed Add left the document
+    partly indexed") *)
 Definition madd (s : mstate) (id : Z) (fields : list (str * mvalue)) : mstate * bool :=
+  if existsb (fun kv => match snd kv with MBad => true | _ => false end) fields then (s, false) else
   madd_fields {| m_all := set_add id (m_all s); m_cat := m_cat s; m_num := m_num s |} id fields.
 
 Definition mremove (s : mstate) (id : Z) : mstate :=
